@@ -418,9 +418,13 @@ class _Rec(Desc):
 
 
 class _Const(Desc):
-    def __init__(self, val, name=None):
+    def __init__(self, val, name=None, accept=None):
         self.val = val
         self.name = name or "const"
+        self._accept = accept
+
+    def accepts(self, v):
+        return self._accept(v) if self._accept is not None else True
 
     def fresh(self, ex, pname):
         return self.val(ex) if callable(self.val) else self.val
@@ -497,8 +501,8 @@ def Rec(model, **kw):
     return _Rec(model, **kw)
 
 
-def Const(v, name=None):
-    return _Const(v, name)
+def Const(v, name=None, accept=None):
+    return _Const(v, name, accept)
 
 
 def Tup(*items, sk="tuple"):
